@@ -112,7 +112,11 @@ class Ctx:
             m = [k for k in self.known if k.get("key") == v["key"]]
             (listed if m else unlisted).append((v, m[0] if m else None))
         out_lines = []
+        seen_known = set()
         for v, k in listed:
+            if v["key"] in seen_known:
+                continue
+            seen_known.add(v["key"])
             out_lines.append(f"KNOWN-FINDING: property={self.prop} {k.get('what', v['what'])} [{v['rule']} at {v['where']}]")
         replay_paths = []
         for v, _ in unlisted:
